@@ -41,4 +41,16 @@ PROPS['C18'] = {
     'assumptions': ['Python ints are unbounded (modelled as Int)'],
 }
 
+DYN_QUICK = [(CORE, 'fam_trans_smallscope', 0, 16), (CORE, 'fam_trans_random', 6000, 16)]
+DYN_THOROUGH = [(CORE, 'fam_trans_smallscope', 0, 16), (CORE, 'fam_trans_random', 400000, 16)]
+
+PROPS['C08'] = {
+    'targets': ['GridVerse.Props.C08'],
+    'theorem_files': [('GridVerse/Props/C08.lean', 'C08_')] + AG('Actions', 'Orient', 'Objects'),
+    'audit_prefix': 'C08_',
+    'families': {'quick': DYN_QUICK, 'thorough': DYN_THOROUGH},
+    'trusted_base': ['the seven transition functions are modelled by hand (Model/Transition.lean) and tied by exhaustive small-scope + random correspondence with recorded draws'],
+    'assumptions': ['grids are rectangular (Grid.WF); reset well-formedness (C13) supplies the valid initial state'],
+}
+
 NOT_CLAIMED = {}
